@@ -34,7 +34,7 @@ N_WORKERS = {"quick": 2, "thorough": 4}
 @st.composite
 def cases(draw, tier):
     big = tier == "thorough"
-    case = draw(sim_cases(n_markets=(2, 3), index_prob=1, vol_zero=False, builtin=True, correlations=True, n_sessions=(1, 3),
+    case = draw(sim_cases(n_markets=(2, 3), index_prob=1, vol_zero=None if draw(st.booleans()) else False, builtin=True, correlations=True, n_sessions=(1, 3),
                           steps=(1, 40) if big else (1, 14), agents_per_group=(1, 3), placement=True, probes=True, caps=(1, 5),
                           random_endowment=True))
     cfg = case["config"]
